@@ -13,7 +13,7 @@ REQUIRED = ["S2_w_stb", "A2_w_data", "S2_readonly_or_unmapped", "A2_multi_chunk"
 
 
 def n_cases(tier):
-    return 320 if tier == "quick" else 4800
+    return 1200 if tier == "quick" else 16000
 
 
 def gen_case(rng, tier, idx):
